@@ -267,6 +267,9 @@ type Evidence struct {
 
 func WriteEvidence(home string, ev *Evidence) error {
 	dir := filepath.Join(home, "evidence")
+	if d := os.Getenv("VERIF_EVIDENCE_DIR"); d != "" { // self-tests against scratch copies must not touch the real evidence
+		dir = d
+	}
 	if err := os.MkdirAll(dir, 0o755); err != nil {
 		return err
 	}
